@@ -31,7 +31,8 @@ CFG = {'long_max_vertices': 150,   # the exact oracle is quadratic in the vertex
                    "GeoProofs/Lemmas/RELM2Linear.lean", "GeoProofs/Lemmas/RELM2Dom.lean", "GeoProofs/Lemmas/RELM2Disjoint.lean", "GeoProofs/Lemmas/RELM2Ring.lean",
                    "GeoProofs/Lemmas/RELM3Simple.lean", "GeoProofs/Lemmas/RELM3LineString.lean", "GeoProofs/Lemmas/RELM3Nodes.lean",
                    "GeoProofs/Lemmas/RELM3Multi.lean", "GeoProofs/Lemmas/RELM3Dom.lean", "GeoProofs/Lemmas/RELM3Coll.lean",
-                   "GeoProofs/Lemmas/RELM3Areal.lean"],
+                   "GeoProofs/Lemmas/RELM3Areal.lean", "GeoProofs/Lemmas/RELM3Star.lean", "GeoProofs/Lemmas/RELM3ExtNodes.lean",
+                   "GeoProofs/Lemmas/RELM3Ext.lean", "GeoProofs/Lemmas/RELM3ExtSpec.lean", "GeoProofs/Lemmas/RELM3Full.lean"],
     "rule": "ordered pairs (A, B) over all 10 geometry types (Geometry enum on both sides) drawn from one shared 3..6 grid: polyomino polygons with "
             "holes (incl. holes tangent to the shell), star polygons, rectangles with holes, corner-touching multipolygons, self-avoiding lattice "
             "paths, multi line strings sharing end points (mod-2 rule), half-grid points, same-dimension collections; each case also relates the "
@@ -189,8 +190,21 @@ MANIFEST = {
             "invariant passes through add_geometry, and a ring point of one member is not strictly inside another because collectionOk makes the cells "
             "II/IB/BI/BB of every pair F while cell_of_located makes the cell of a common arrangement point non-F: impl_nodes_carry_locate_arealCollection), the columns of relate(B, Point p) "
             "(relateImpl_point_cols_eq_spec_allTypes_partial) and both paths given DimsSpec (relateImpl_point_rows_eq_spec_allTypes_both_paths_partial). "
+            "HasDimensions = row maxima of the specification (DimsSpec) follows from validity for every type but Polygon / MultiPolygon / collection "
+            "(dimsSpec_dom_partial), so the shortcut returns the specification's whole matrix and the rows hold on both paths without a DimsSpec "
+            "hypothesis there (relateImpl_disjoint_eq_spec_noPolygon_partial, relateImpl_point_rows_eq_spec_noPolygon_partial). "
+            "(12) The Exterior row for linear B, hence the WHOLE matrix: in the model of the implementation every edge of B stays isolated "
+            "(selfNoded_edges_isolated) and contributes (1, E, I); every bundle of every star of line edge ends is labelled Inside in B's slot, no side to "
+            "propagate, no collapse; OnBoundary in B's slot of the node map is written by copy_nodes_and_labels only, so EI = 1 iff B has an edge and "
+            "EB = 0 iff B's graph has a boundary node away from p (relateImpl_point_exterior_row_lineEdges, any arithmetic, B valid or not); in the "
+            "specification EI = 1 iff B has a non-degenerate segment and EB = 0 iff some point other than p is located on B's boundary "
+            "(relateSpec_point_linear_exterior_row: an elementary midpoint is not a vertex, hence not p and not an end point; a boundary point is an end "
+            "point, hence a vertex); joined by impl_nodes_carry_locate_linear: relate(Point p, B) = relateSpec (Point p) B, all nine cells, on the graph "
+            "path for every linear B of the domain with an edge, collections included (relateImpl_point_linear_graph_eq_spec), on both paths for B a Line, "
+            "LineString or MultiLineString (relateImpl_point_lineType_eq_spec_partial), and for the total function in both operand orders, relate never "
+            "panicking there (relateImpl_point_lineType_eq_spec_total_partial) — the first full-matrix equalities beyond point-like operands. "
             "Open there: collections mixing kinds (in the domain only with empty members of another kind), "
-            "and the Exterior row / column (the contributions of B's isolated edges and edge-end stars against DimsSpec-type facts of B). The disjoint-envelope shortcut on the whole validity domain, polygons with holes "
+            "and the Exterior row / column for areal B (side labels of area edge bundles; an interior face sample of a valid polygon). The disjoint-envelope shortcut on the whole validity domain, polygons with holes "
             "included: 'hole coordinates in the reported rectangle' and 'rings closed' follow from validity (C02X dom_facts), so relateImpl = relateSpec "
             "for domain operands with non-intersecting rectangles wherever HasDimensions agrees with the specification "
             "(relateImpl_disjoint_eq_spec_dom_partial; remaining hypothesis DimsSpec: interior face sample of a valid polygon, collections). "
